@@ -65,6 +65,10 @@ namespace hv
     using VQ    = TSB<"VQ", Field<"b", TS<Int>>, Field<"a", TS<Int>>>;
     using S_BB  = TSB<"BB", Field<"q", VQ>, Field<"l", TS<Int>>>;
     using S_BL  = TSB<"BL", Field<"g", TSL<TS<Int>, 2>>, Field<"l", TS<Int>>>;
+    // keys narrower than a pointer (the slot store keeps liveness in bitmaps for these)
+    using I32     = std::int32_t;
+    using S_TSS32 = TSS<I32>;
+    using S_TSD32 = TSD<I32, TS<Int>>;
 
     // ---- generic endpoint dump (JSON) ---------------------------------------------------------
     inline void jesc(std::string &o, const std::string &s)
@@ -261,7 +265,19 @@ namespace hv
                     }
                 }
                 catch (const std::exception &) {}
-                o += "],\"size\":";
+                o += "],\"hasrem\":";
+                bool hasrem = false;
+                try { hasrem = w.has_removed_value(); } catch (const std::exception &) {}
+                o += hasrem ? "1" : "0";
+                o += ",\"remv\":";
+                std::string rv = "<none>";
+                if (hasrem) { try { rv = vstr(w.removed_value()); } catch (const std::exception &e) { rv = std::string{"<err:"} + e.what() + ">"; } }
+                jesc(o, rv);
+                o += ",\"cleared\":";
+                bool clr = false;
+                try { clr = w.data_view().cleared(in.evaluation_time()); } catch (const std::exception &) {}
+                o += clr ? "1" : "0";
+                o += ",\"size\":";
                 o += std::to_string(w.size());
                 // tick-count windows only: a duration window has no size layout
                 long long per = -1, minp = -1;
@@ -314,6 +330,7 @@ namespace hv
     template <typename K> K parse_key(const std::string &s);
     template <> inline Int parse_key<Int>(const std::string &s) { return std::atoll(s.c_str()); }
     template <> inline Str parse_key<Str>(const std::string &s) { return s; }
+    template <> inline I32 parse_key<I32>(const std::string &s) { return (I32)std::atoll(s.c_str()); }
 
     template <typename Sch>
     void apply_op(const Out<Sch> &out, const std::string &op, DateTime now)
@@ -331,6 +348,13 @@ namespace hv
             else if (op[0] == '-') (void)out.remove(Int{std::atoll(op.c_str() + 1)});
             else if (op[0] == 'c') out.clear();
             else throw std::runtime_error("bad TSS op " + op);
+        }
+        else if constexpr (std::is_same_v<Sch, TSS<I32>>)
+        {
+            if (op[0] == '+') (void)out.add(I32{(I32)std::atoll(op.c_str() + 1)});
+            else if (op[0] == '-') (void)out.remove(I32{(I32)std::atoll(op.c_str() + 1)});
+            else if (op[0] == 'c') out.clear();
+            else throw std::runtime_error("bad TSS32 op " + op);
         }
         else if constexpr (is_tsd<Sch>::value)
         {
@@ -380,6 +404,7 @@ namespace hv
         else if constexpr (is_tsw<Sch>::value)
         {
             if (op[0] == '^') out.push(Int{std::atoll(op.c_str() + 1)});
+            else if (op[0] == 'c') out.clear();
             else throw std::runtime_error("bad TSW op " + op);
         }
     }
